@@ -327,6 +327,13 @@ func (r *relay) processFrame(f http2.Frame) error {
 			}
 			err = r.continuationState.complete(r.processor(f.StreamID), headers)
 		}
+	case *http2.UnknownFrame:
+		// Extension frames (ALTSVC, ORIGIN, PRIORITY_UPDATE ...) are not for the relay to judge: an
+		// endpoint ignores the types it does not know (RFC 7540 section 4.1). They are passed on as
+		// they are.
+		r.destMu.Lock()
+		err = r.dest.WriteRawFrame(f.Type, f.Flags, f.StreamID, f.Payload())
+		r.destMu.Unlock()
 	default:
 		err = errors.New("unrecognized frame type")
 	}
